@@ -526,6 +526,28 @@ func propShplonk(t *rapid.T, c *cv) {
 				t.Fatalf("harness error: shifted claims are still true")
 			}
 			fk := fmt.Sprintf("adaptive shift a=%v b=%v delta=%s %s", slots[ia], slots[ib], delta.Text(16), key)
+			// The known finding tolerates exactly one thing: the verdict of the exactly compensated shift (for which the
+			// verifier's relation holds although the claims are false). Pin the class: the construction must satisfy the
+			// relation, and its nearest neighbour — the same shift with the compensation off by one — must be rejected,
+			// known finding or not.
+			{
+				o := c.shpObj(in)
+				reflect.ValueOf(o).Elem().Field(2).Set(reflect.ValueOf(forged).Elem())
+				if w, why := c.shpExpectObj(in, o); w != mustAccept {
+					t.Fatalf("harness error: the F15 construction does not satisfy the verifier's relation (%s)", why)
+				}
+				near := DeepCopy(forged)
+				e := reflect.ValueOf(near).Elem().FieldByName("ClaimedValues").Index(slots[ib][0]).Index(slots[ib][1])
+				e.Set(reflect.ValueOf(c.fe(c.F.Add(feBig(e), bi(1)))).Elem())
+				reflect.ValueOf(o).Elem().Field(2).Set(reflect.ValueOf(near).Elem())
+				if w, why := c.shpExpectObj(in, o); w != mustReject {
+					t.Fatalf("harness error: miscompensated shift expected to break the relation (%s)", why)
+				}
+				if err := c.shpVerify(near, in.digests, points, srs, data); err == nil {
+					t.Fatalf("shplonk/%s: FORGERY ACCEPTED: jointly shifted claimed values with the compensation off by one verify — NOT the known finding F15 (only the exactly compensated shift is) (%s)", c.name, fk)
+				}
+				rep.Case(test, "miscompensated "+fk, true, "shplonk", "curve:"+c.name, "adaptive_shift_miscompensated", "verdict:rejected")
+			}
 			if rep.Known(prop, keyF15) {
 				// known finding: the class is excluded from the asserting generator; only the exactness of the
 				// verdict w.r.t. the relation is still checked (the relation holds by construction)
